@@ -297,6 +297,7 @@ type rdbHooks struct {
 	OnStart   func(cancel context.CancelFunc)                // receives the cancel function of the replay context
 	Picker    vsel.Picker                                    // decides rewritten selects with several ready cases (builds with the select transform)
 	MaxReq    int                                            // give up (Runaway) after this many target requests (0 = 300000)
+	NoPark    bool                                           // the target answers every request at once (it keeps up with the parser) instead of being stepped at quiescence
 }
 
 type rdbOutcome struct {
@@ -341,7 +342,7 @@ func rdbRun(scn rdbScenario, built *rdbBuilt, ch *mc.Chooser, hooks *rdbHooks) *
 	if hooks != nil && hooks.Prepare != nil {
 		hooks.Prepare(srv)
 	}
-	srv.PlanRef().Park = true
+	srv.PlanRef().Park = hooks == nil || !hooks.NoPark
 
 	out := &rdbOutcome{Srv: srv, StartMs: time.Now().UnixMilli()}
 	ro := NewRedisOutput(scn.Cfg.outputConfig())
